@@ -238,7 +238,10 @@ class SkelInterp:
             val = self.term(n.value, s.env)
             if isinstance(t, ast.Name):
                 s.stores.append(("name", t.id, ast.unparse(val)))
-                s.env[t.id] = val
+                if isinstance(n.value, (ast.Dict, ast.List, ast.Set)):
+                    s.env.pop(t.id, None)  # a fresh mutable container: the variable stays symbolic
+                else:
+                    s.env[t.id] = val
             elif isinstance(t, ast.Subscript):
                 s.stores.append(("item", f"{self.text(t.value, {})}[{self.text(t.slice, s.env)}]", ast.unparse(val)))
             elif isinstance(t, ast.Attribute):
